@@ -66,6 +66,10 @@ func (pac *PACType) Unmarshal(b []byte) (err error) {
 	if err != nil {
 		return
 	}
+	// Each info buffer entry takes 16 bytes of the PAC
+	if uint64(pac.CBuffers) > uint64(len(b))/16 {
+		return fmt.Errorf("PAC info buffer count %d exceeds the size of the PAC", pac.CBuffers)
+	}
 	buf := make([]InfoBuffer, pac.CBuffers, pac.CBuffers)
 	for i := range buf {
 		buf[i].ULType, err = r.Uint32()
@@ -88,7 +92,13 @@ func (pac *PACType) Unmarshal(b []byte) (err error) {
 // ProcessPACInfoBuffers processes the PAC Info Buffers.
 // https://msdn.microsoft.com/en-us/library/cc237954.aspx
 func (pac *PACType) ProcessPACInfoBuffers(key types.EncryptionKey, l *log.Logger) error {
+	if len(pac.ZeroSigData) != len(pac.Data) {
+		return errors.New("PAC data and its copy for signature verification differ in length")
+	}
 	for _, buf := range pac.Buffers {
+		if buf.Offset > uint64(len(pac.Data)) || uint64(buf.CBBufferSize) > uint64(len(pac.Data))-buf.Offset {
+			return fmt.Errorf("PAC info buffer of type %d is not within the PAC", buf.ULType)
+		}
 		p := make([]byte, buf.CBBufferSize, buf.CBBufferSize)
 		copy(p, pac.Data[int(buf.Offset):int(buf.Offset)+int(buf.CBBufferSize)])
 		switch buf.ULType {
